@@ -7,7 +7,51 @@ import os
 from engine.side import run, Violation, Skip, notrace
 from harness import pcommon as P
 from harness.c01 import judge
+import io
+
+from sievelib import parser as SP
 from sievelib.parser import Parser
+
+
+def _fake_open(data):
+    """what open() would hand out for a file holding `data`, whatever mode / encoding the caller asks for"""
+    def opener(name, mode="r", buffering=-1, encoding=None, errors=None, newline=None, **kw):
+        raw = io.BytesIO(data)
+        if "b" in mode:
+            return raw
+        return io.TextIOWrapper(raw, encoding=encoding or "utf-8", errors=errors, newline=newline)
+    return opener
+
+
+def parse_both(text):
+    """Parser.parse(bytes) and Parser.parse_file(<file with those bytes>): each judged, and they must agree"""
+    p = Parser()
+    try:
+        out = p.parse(text)
+    except Exception as e:
+        out = e
+    cls = judge("c02", out, p, text, 0, True)
+    q = Parser()
+    SP.open = _fake_open(text)
+    try:
+        try:
+            out2 = q.parse_file("script.sieve")
+        except Exception as e:
+            out2 = e
+    finally:
+        del SP.open
+    try:
+        judge("c02", out2, q, text, 0, True)
+    except Violation as v:
+        raise Violation(v.signature.replace("C02/", "C02/parse_file/", 1), v.detail)
+    if out2 is not out and out2 != out:
+        raise Violation("C02/parse_file/verdict-differs-from-parse", {"script": text.decode("utf-8", "backslashreplace"),
+                                                                     "parse": repr(out), "parse_file": repr(out2)})
+    if out is False and (p.error != q.error or p.error_pos != q.error_pos):
+        raise Violation("C02/parse_file/error-differs-from-parse", {"script": text.decode("utf-8", "backslashreplace"),
+                                                                   "parse": [p.error, list(p.error_pos)],
+                                                                   "parse_file": [q.error, list(q.error_pos)]})
+    return cls
 
 TAILS = [
     b";", b'keep "a";', b"foo;", b"if true", b"if true { keep; } }", b'"a"', b"keep ]",
@@ -30,6 +74,7 @@ CORPUS = [
     b'# c\xc3\xa9\nif anyof (true, not false) { keep; stop; }\n',
     b'require "imap4flags";\nif hasflag "a" { setflag ["b", "c"]; }\n/* d */\n',
     b'if size :over 2K { discard; }\r\nelsif exists ["a","b"] { redirect "a@b"; }\r\n',
+    b'keep;\rstop;\r# lone CR line ends\rdiscard;\r',
 ]
 MUT_BYTES = [0x00, 0xFF, 0xC3, 0x22, 0x5C, 0x0A, 0x0D, 0x7B, 0x7D, 0x3B, 0x23, 0x5B, 0x28, 0x2C, 0x3A, 0x2A]
 NC = len(CORPUS)
@@ -44,12 +89,7 @@ def _native_p3(k, lead, crlf, tail, trail):
         text += nl + b"# \xe2\x82\xac\xe2\x82\xac" + nl
     elif trail == 2:
         text += b" \xc3\xa9\xc3\xa9"
-    p = Parser()
-    try:
-        out = p.parse(text)
-    except Exception as e:
-        out = e
-    return judge("c02", out, p, text, 0, True), text
+    return parse_both(text), text
 
 
 def _p3_body(info, k, tail, trail):
@@ -95,12 +135,7 @@ def _native_p4(script, pos, b, op):
         text = src[:pos] + bytes([MUT_BYTES[b]]) + src[pos:]
     else:
         text = src[:pos]      # truncation
-    p = Parser()
-    try:
-        out = p.parse(text)
-    except Exception as e:
-        out = e
-    return judge("c02", out, p, text, 0, True), text
+    return parse_both(text), text
 
 
 def _p4_body(info, pos, b, op):
